@@ -209,7 +209,13 @@ func (fr *Frame) visibleNames(loop *Loop) map[string]types.Type {
 }
 
 func (fr *Frame) localVar(name string, loop *Loop) *types.Var {
-	if loop == nil || loop.Stmt == nil || fr.decl == nil {
+	if fr.decl == nil || fr.fn == nil {
+		return nil
+	}
+	if loop == nil && fr.site == nil {
+		return nil
+	}
+	if loop != nil && loop.Stmt == nil {
 		return nil
 	}
 	declPkg := fr.x.P.PkgByPath[fr.fn.Pkg.Pkg.Path()]
@@ -217,11 +223,19 @@ func (fr *Frame) localVar(name string, loop *Loop) *types.Var {
 		return nil
 	}
 	var pos token.Pos
-	switch s := loop.Stmt.(type) {
-	case *ast.ForStmt:
-		pos = s.Body.Lbrace
-	case *ast.RangeStmt:
-		pos = s.Body.Lbrace
+	if loop == nil {
+		// a clause about one call site (callrequires / callassumes): the locals in scope at the call
+		pos = fr.site.Pos()
+		if !pos.IsValid() {
+			return nil
+		}
+	} else {
+		switch s := loop.Stmt.(type) {
+		case *ast.ForStmt:
+			pos = s.Body.Lbrace
+		case *ast.RangeStmt:
+			pos = s.Body.Lbrace
+		}
 	}
 	sc := declPkg.Types.Scope().Innermost(pos)
 	if sc == nil {
@@ -378,6 +392,65 @@ func (fr *Frame) resolveName(n string, st *State, loop *Loop, extra map[string]*
 	for i, pn := range fr.paramNames {
 		if pn == n && i < len(fr.params) {
 			return fr.params[i]
+		}
+	}
+	if loop == nil && fr.site != nil {
+		// a local variable of the calling function, at the call site the clause is about
+		if lv := fr.localVar(n, nil); lv != nil {
+			if t := fr.localValueAt(lv, fr.site, st); t != nil {
+				return t
+			}
+		}
+	}
+	return nil
+}
+
+// localValueAt: value of source variable v just before instruction site (the latest reference to v in site's block
+// before it, else in the dominating blocks).
+func (fr *Frame) localValueAt(v *types.Var, site ssa.Instruction, st *State) *Term {
+	x := fr.x
+	scan := func(b *ssa.BasicBlock, from int) *Term {
+		for i := from; i >= 0; i-- {
+			switch ins := b.Instrs[i].(type) {
+			case *ssa.DebugRef:
+				if ins.Object() == v {
+					if ins.IsAddr {
+						if t, ok := st.regs[ins.X]; ok {
+							return x.load(st, t, v.Type())
+						}
+						continue
+					}
+					if c, ok := ins.X.(*ssa.Const); ok {
+						return x.constTerm(c)
+					}
+					if t, ok := st.regs[ins.X]; ok {
+						return t
+					}
+				}
+			case *ssa.Phi:
+				if ins.Comment == v.Name() && types.Identical(ins.Type(), v.Type()) {
+					if t, ok := st.regs[ins]; ok {
+						return t
+					}
+				}
+			}
+		}
+		return nil
+	}
+	b := site.Block()
+	from := len(b.Instrs) - 1
+	for i, ins := range b.Instrs {
+		if ins == site {
+			from = i - 1
+			break
+		}
+	}
+	if t := scan(b, from); t != nil {
+		return t
+	}
+	for d := b.Idom(); d != nil; d = d.Idom() {
+		if t := scan(d, len(d.Instrs)-1); t != nil {
+			return t
 		}
 	}
 	return nil
